@@ -160,7 +160,7 @@ pub fn run(prop: &str, args: &Args) -> LegResult {
 
     // --- determinism self-test across processes: next to every shard process of the batch a second
     // process re-executes the first runs of that shard; the two event-log hashes must agree
-    let st_n: u64 = if args.no_selftest { 0 } else if args.tier == "thorough" { 250 } else { 40 };
+    let st_n: u64 = if args.no_selftest { 0 } else if args.tier == "thorough" { 1000 } else { 150 };
     let mut selftest_note = String::from("skipped");
     // --- the batch, in shard processes
     let k = args.threads.clamp(1, 8) as u64;
@@ -168,7 +168,9 @@ pub fn run(prop: &str, args: &Args) -> LegResult {
     let _ = std::fs::create_dir_all(&outdir);
     let mut hash_children = vec![];
     if st_n > 0 {
-        for i in 0..k {
+        // two of the shards get a second process (which ones rotates with the seed)
+        let picks: BTreeSet<u64> = [0, args.seed % k].into_iter().collect();
+        for i in picks {
             let mut envs = base.clone();
             envs.push(("VERIF_E5_SHARD", format!("{i}/{k}")));
             envs.push(("VERIF_E5_HASHES", st_n.to_string()));
@@ -303,7 +305,7 @@ pub fn run(prop: &str, args: &Args) -> LegResult {
         } else if let Some(loc) = aborted {
             selftest_note = format!("partly not completed: a self-test process was aborted by a panic at {loc} (a crash of the code under test; see the batch); {compared} shard pairs identical");
         } else {
-            selftest_note = format!("first {st_n} runs of each of {compared} shards executed in two fresh processes: identical event-log hashes");
+            selftest_note = format!("first {st_n} runs of {compared} of the {k} shards executed in two fresh processes: identical event-log hashes");
         }
         println!("selftest(e2e): {selftest_note}");
     }
